@@ -160,4 +160,38 @@ Section Denot.
     (forall k s1 s2, In s1 W -> In s2 W -> s1 <> [] -> s2 <> [] ->
        e_sigok e (kb ke k) s1 = true -> e_sigok e (kb ke k) s2 = true -> s1 = s2) /\
     uniq_pre (e_sha256 e) W /\ uniq_pre (e_hash256 e) W /\ uniq_pre (e_ripemd160 e) W /\ uniq_pre (e_hash160 e) W.
+
+  (* the same, only for the keys [K] and the hash images [P] that matter *)
+  Definition uniq_pre_on (P : bytes -> Prop) (hf : bytes -> bytes) (W : wit) : Prop :=
+    forall h, P h -> forall x1 x2, In x1 W -> In x2 W -> blen x1 = 32%N -> blen x2 = 32%N ->
+      hf x1 = h -> hf x2 = h -> x1 = x2.
+  Definition uniq_material_on (K : key -> Prop) (P : bytes -> Prop) (W : wit) : Prop :=
+    (forall k, K k -> forall s1 s2, In s1 W -> In s2 W -> s1 <> [] -> s2 <> [] ->
+       e_sigok e (kb ke k) s1 = true -> e_sigok e (kb ke k) s2 = true -> s1 = s2) /\
+    uniq_pre_on P (e_sha256 e) W /\ uniq_pre_on P (e_hash256 e) W /\
+    uniq_pre_on P (e_ripemd160 e) W /\ uniq_pre_on P (e_hash160 e) W.
 End Denot.
+
+(* the keys and the hash images a fragment mentions *)
+Fixpoint dn_keys (m : ms) : list key :=
+  match m with
+  | MPkK k | MPkH k => [k]
+  | MMulti _ ks | MSortedMulti _ ks | MMultiA _ ks | MSortedMultiA _ ks => ks
+  | MAlt x | MSwap x | MCheck x | MDupIf x | MVerify x | MNonZero x | MZeroNotEqual x => dn_keys x
+  | MAndV x y | MAndB x y | MOrB x y | MOrD x y | MOrC x y | MOrI x y => dn_keys x ++ dn_keys y
+  | MAndOr a b c => dn_keys a ++ dn_keys b ++ dn_keys c
+  | MThresh _ xs => flat_map dn_keys xs
+  | _ => []
+  end.
+Fixpoint dn_imgs (m : ms) : list bytes :=
+  match m with
+  | MSha256 h | MHash256 h | MRipemd160 h | MHash160 h => [h]
+  | MAlt x | MSwap x | MCheck x | MDupIf x | MVerify x | MNonZero x | MZeroNotEqual x => dn_imgs x
+  | MAndV x y | MAndB x y | MOrB x y | MOrD x y | MOrC x y | MOrI x y => dn_imgs x ++ dn_imgs y
+  | MAndOr a b c => dn_imgs a ++ dn_imgs b ++ dn_imgs c
+  | MThresh _ xs => flat_map dn_imgs xs
+  | _ => []
+  end.
+(* at most one signature per key OF [m], one preimage per image OF [m], among the elements of [W] *)
+Definition uniq_material_of (e : env) (ke : keyenv) (m : ms) (W : wit) : Prop :=
+  uniq_material_on e ke (fun k => In k (dn_keys m)) (fun h => In h (dn_imgs m)) W.
